@@ -147,7 +147,8 @@ class CallMixin(object):
                 if ct is None:
                     helper = self.find_helper(recv.sort.cls, fv.name)
                     if helper is not None and not self.spec_mode:
-                        return self.inline_helper(helper, [recv] + args, kwargs, st)
+                        static = any(ast.unparse(d) == 'staticmethod' for d in helper.decorator_list)
+                        return self.inline_helper(helper, ([] if static else [recv]) + args, kwargs, st)
                     raise OutsideSubset('call to %s.%s: no contract' % (recv.sort.cls, fv.name))
                 if not self.spec_mode:
                     self.raise_if(st, recv.t == null, 'AttributeError', 'method call on None')
